@@ -335,6 +335,13 @@ func (p *H2Peer) readLoop() {
 			if rf.EndHeaders {
 				rf.Fields, _ = p.dec.DecodeFull(p.hbuf)
 			}
+		case *xhttp2.PushPromiseFrame:
+			// (decoded only to keep the HPACK state of the connection in step)
+			rf.EndHeaders = f.HeadersEnded()
+			p.hbuf = append(p.hbuf[:0], f.HeaderBlockFragment()...)
+			if rf.EndHeaders {
+				rf.Fields, _ = p.dec.DecodeFull(p.hbuf)
+			}
 		case *xhttp2.RSTStreamFrame:
 			rf.ErrCode = f.ErrCode
 		case *xhttp2.GoAwayFrame:
